@@ -15,7 +15,10 @@ LEVEL_TEXT = ("Refinement to a name->(child, metadata) map proved in Lean for al
               "idempotent normalize; no-overwrite / only-files / failed-rename / rename-never-loses-child / linkcrtime / "
               "linkmotime theorems proved outright.  The model is tied to dirnode.py by comparing, after every operation "
               "of seeded histories on real directories, the result or error and the complete listing (names, kinds, "
-              "write and read caps, metadata including tahoe.linkcrtime/linkmotime).")
+              "write and read caps, metadata including tahoe.linkcrtime/linkmotime).  Concurrent adds by two holders of "
+              "the write cap (UncoordinatedWriteError retry path, first_time=False) are outside the single-writer "
+              "refinement theorem and are covered by the monitor: the outcome must be explained by applying both adds to "
+              "one name map in some order (a no-overwrite add never replaces the other writer's entry).")
 LEVEL_NOTE = ("Lean kernel + standard axioms; model hand-written, tied by correspondence; normalize is a parameter with the "
               "hypothesis norm∘norm = norm (sampled for unicodedata NFC); a stored child is its (kind, write cap, read cap) "
               "— its re-creation from the stored caps is C19/C16.")
@@ -24,7 +27,11 @@ RULE = ("seeded histories (<=30 ops; longer in thorough) over 3 real mutable dir
         "delete/set_metadata_for/move_child_to/get/has_child/get_metadata_for with overwrite in {True, False, ONLY_FILES}, "
         "names from a pool with NFC-equivalent and colliding spellings, children of every cap kind incl. unknown caps; "
         "a case is one operation; distinct = distinct (op kind, flags, target-existed, kind of the existing child, result); "
-        "non-trivial = the target directory is non-empty before the op")
+        "non-trivial = the target directory is non-empty before the op; plus two-writer scenarios (two clients, separate "
+        "node objects of one dircap, each adding one link under the same / an NFC-equivalent / a different name with "
+        "overwrite in {False, ONLY_FILES, True}, optionally over an existing file or directory entry; seeded random "
+        "delivery order, and forced interleavings where one writer's publish requests are held back until the other's "
+        "add completed), judged by the monitor only")
 TRUSTED = ["lean/Tahoe/Dir/Edit.lean is a hand transcription of dirnode.py's modifiers and DirectoryNode edit methods "
            "(dict as association list; metadata 'tahoe' key as a separate field; node = kind + write cap + read cap + error flag)",
            "harness/grid.py (in-process grid, virtual clock) and the canonicalisation of listings in harness/props/c20.py"]
@@ -627,23 +634,170 @@ def run_history(ctx, w, case):
     return "hist 3 %s %s" % (table, " ".join(toks)), " ".join(impl)
 
 
+# ------------------------------------------------------------------ two writers on one directory (monitor only)
+
+WRITE = "slot_testv_and_readv_and_writev"
+
+
+def gen_two_writer(rng):
+    """two holders of one directory's write cap each add one link, concurrently"""
+    base = rng.choice(["report.txt", "caf\u00e9.txt", "\u212b", "q\u0307\u0323", "a", "\ud55c"])
+    spell = lambda: unicodedata.normalize(rng.choice(["NFC", "NFD"]), base)
+    same = rng.random() < 0.8
+    ow = lambda: rng.choice(["n", "n", "n", "n", "f", "y"])
+    pre = rng.choice([None, None, None, "file", "dir"])
+    return {"two": True, "mode": rng.choice(["forced", "forced", "concurrent", "concurrent", "forced-b-first"]),
+            "pre": pre, "pre_name": spell() if rng.random() < 0.6 else "other",
+            "A": {"name": spell(), "ow": ow(), "kind": rng.choice(["file", "file", "dir"])},
+            "B": {"name": spell() if same else "b-" + base, "ow": ow(), "kind": rng.choice(["file", "file", "dir"])}}
+
+
+TWO_CORPUS = [
+    {"two": True, "mode": "forced", "pre": None, "pre_name": "other",
+     "A": {"name": "report.txt", "ow": "n", "kind": "file"}, "B": {"name": "report.txt", "ow": "n", "kind": "file"}},
+    {"two": True, "mode": "forced", "pre": None, "pre_name": "other",
+     "A": {"name": "caf\u00e9.txt", "ow": "n", "kind": "file"}, "B": {"name": "cafe\u0301.txt", "ow": "n", "kind": "dir"}},
+    {"two": True, "mode": "concurrent", "pre": "dir", "pre_name": "x",
+     "A": {"name": "x", "ow": "f", "kind": "file"}, "B": {"name": "x", "ow": "n", "kind": "file"}},
+]
+
+
+def ref_apply(m, op):
+    """the name map of the statement: one add with its overwrite mode -> (result, new map)"""
+    k = nfc(op["name"])
+    if k in m:
+        if op["ow"] == "n" or (op["ow"] == "f" and m[k][0] == "dir"):
+            return "exists", m
+    m2 = dict(m)
+    m2[k] = (op["kind"], op["cap"])
+    return "ok", m2
+
+
+def run_two_writer(ctx, rt, g, case):
+    from twisted.python.failure import Failure
+    from allmydata import uri
+    from allmydata.dirnode import ONLY_FILES
+    from allmydata.interfaces import ExistingChildError, IDirectoryNode
+    from allmydata.mutable.common import UncoordinatedWriteError
+    OW = {"y": True, "n": False, "f": ONLY_FILES}
+    ca, cb = g.clients[0], g.clients[1]
+    a = rt.wait(ca.create_dirnode())
+    b = cb.create_node_from_uri(a.get_uri())
+    assert b is not a and not b.is_readonly()
+    mk = lambda kind, tag: (uri.LiteralFileURI(tag).to_string() if kind == "file"
+                            else uri.LiteralDirectoryURI(uri.LiteralFileURI(tag)).to_string())
+    ref0 = {}
+    if case["pre"]:
+        cap = mk(case["pre"], b"")
+        rt.wait(a.set_uri(case["pre_name"], None, cap))
+        ref0[nfc(case["pre_name"])] = (case["pre"], cap)
+    ops = {}
+    for who in "AB":
+        op = dict(case[who])
+        op["cap"] = mk(op["kind"], b"child of " + who.encode())
+        ops[who] = op
+    start = lambda node, op: node.set_uri(op["name"], None, op["cap"], overwrite=OW[op["ow"]])
+    boxes = {}
+
+    def watch(who, d):
+        boxes[who] = []
+        d.addBoth(boxes[who].append)
+        return d
+    first, second = ("A", "B") if case["mode"] != "forced-b-first" else ("B", "A")
+    nodes = {"A": a, "B": b}
+    if case["mode"].startswith("forced"):
+        # the first writer's publish requests are held back "on the wire" while the other one completes its add
+        d1 = watch(first, start(nodes[first], ops[first]))
+        steps = 0
+        while not any(lbl and lbl[1] == WRITE for (lbl, _) in rt.pending):
+            if not rt.step() or steps > 200000:
+                break
+            steps += 1
+        held, rt.pending = rt.pending, []
+        d2 = watch(second, start(nodes[second], ops[second]))
+        rt.pump(until=d2)
+        rt.pending.extend(held)
+        rt.pump(until=d1)
+    else:
+        d1 = watch("A", start(a, ops["A"]))
+        d2 = watch("B", start(b, ops["B"]))
+        rt.pump(until=d1)
+        rt.pump(until=d2)
+    res = {}
+    for who in "AB":
+        bx = boxes[who]
+        if not bx:
+            res[who] = "pending"
+        elif isinstance(bx[0], Failure):
+            res[who] = "exists" if bx[0].check(ExistingChildError) else \
+                ("ucwe" if bx[0].check(UncoordinatedWriteError) else "error:" + bx[0].type.__name__)
+            bx[0].trap(Exception)
+        else:
+            res[who] = "ok"
+    final = {}
+    for k, (n, md) in rt.wait(cb.create_node_from_uri(a.get_uri()).list()).items():
+        final[k] = ("dir" if IDirectoryNode.providedBy(n) else "file", n.get_uri())
+    # ---- monitor: the two adds behave like updates of one name map, applied in some order
+    V = lambda what, sig: ctx.violation(what, case, sig, {"results": res, "final": {k: v[0] + ":" + v[1].decode() for k, v in final.items()}})
+    for who in "AB":
+        if res[who] in ("pending",) or res[who].startswith("error"):
+            ctx.disagree("a concurrent add ended unexpectedly", case, res[who], None)
+    explained = False
+    for order in ("AB", "BA"):
+        # an add that failed with UncoordinatedWriteError may or may not have taken effect
+        variants = [[]]
+        for who in order:
+            variants = [v + [x] for v in variants for x in ([True, False] if res[who] == "ucwe" else [True])]
+        for v in variants:
+            m = dict(ref0)
+            okay = True
+            for who, applied in zip(order, v):
+                if not applied:
+                    continue
+                r, m = ref_apply(m, ops[who])
+                if res[who] != "ucwe" and r != res[who]:
+                    okay = False
+            if okay and m == final:
+                explained = True
+    if not explained:
+        same = nfc(ops["A"]["name"]) == nfc(ops["B"]["name"])
+        no_ow_ok = [w_ for w_ in "AB" if ops[w_]["ow"] == "n" and res[w_] == "ok"]
+        if same and no_ow_ok and (res["A"] == "ok" and res["B"] == "ok" or
+                                  final.get(nfc(ops[no_ow_ok[0]]["name"]), (None, None))[1] != ops[no_ow_ok[0]]["cap"]
+                                  or len(ref0) and nfc(ops["A"]["name"]) in ref0):
+            V("a no-overwrite add that reported success replaced (or was credited with) another writer's entry",
+              "concurrent-no-overwrite-replaced")
+        else:
+            V("two concurrent adds are not explained by applying them to a name map in either order",
+              "concurrent-not-a-map")
+    ctx.case(("two", case["mode"], case["pre"], ops["A"]["ow"], ops["B"]["ow"], res["A"], res["B"]))
+    ctx.count("two-writer:%s:%s/%s" % (case["mode"], res["A"], res["B"]))
+
+
 def run(ctx):
     common.setup_impl_path()
     import grid
+    twos = []
     if ctx.replay:
         c = ctx.replay["case"]
-        hists = [c["history"] if "history" in c else c]
+        c = c["history"] if "history" in c else c
+        hists, twos = ([], [c]) if c.get("two") else ([c], [])
     else:
         npool = len(cap_pool())
         hists = [json.loads(json.dumps(h)) for h in CORPUS]
         lens = [4, 12, 30] if ctx.tier != "thorough" else [4, 12, 30, 30, 80]
         for _ in range(ctx.budget(50, 500)):
             hists.append(gen_history(ctx.rng, ctx.rng.choice(lens), npool))
+        twos = [json.loads(json.dumps(t)) for t in TWO_CORPUS]
+        for _ in range(ctx.budget(40, 600)):
+            twos.append(gen_two_writer(ctx.rng))
     lines, impls = [], []
     with grid.Runtime(seed=ctx.seed, policy="random") as rt:
-        g = grid.Grid(grid.fresh_dir("c20"), rt, num_servers=3, num_clients=1, k=1, happy=1, n=2)
+        g = grid.Grid(grid.fresh_dir("c20"), rt, num_servers=3, num_clients=2, k=1, happy=1, n=2)
         try:
             w = World(ctx, rt, g)
+            for tcase in twos:
+                run_two_writer(ctx, rt, g, tcase)
             for hcase in hists:
                 line, impl = run_history(ctx, w, hcase)
                 lines.append(line)
